@@ -620,7 +620,7 @@ func (p *Parser) parseExpr(pre precedence) (ast.Expr, error) {
 	t := p.next()
 	prefix := p.prefixParseFns[t.Typ]
 	if prefix == nil {
-		return nil, nil
+		return nil, fmt.Errorf("ln%v: expecting an expression, got %v", t.Line, t.Val)
 	}
 	p.backup()
 	leftExp, err := prefix()
